@@ -43,7 +43,33 @@ def step' (w : W) (line : String) : W × String :=
       if w.slots.any (fun (_, s) => s.bad) then (w, "MODEL-BAD " ++ obs w) else (w, pre ++ " " ++ obs w)
   match toks with
   | ["seq", _] => ({}, "seq")
-  | ["open", id, sl] =>
+  | ["hup", _] => fin w "ok"
+  | [o, id, sl] =>
+    if o != "open" && o != "openh" then
+      (match o, kv sl "slot" with
+       | "dclose", some k =>
+         -- the owner's Close() overlaps the dispatch: detach while the poller holds the token, `unused()` only after `done()`,
+         -- the descriptor closed last; the probe descriptor opened in between can therefore not have got the number
+         let s := getSlot w k
+         let owner := (w.conns.find? (fun (_, sl, g) => sl == k && some g == s.cbGen)).map (·.1)
+         let w := apply w k [.doEv, .detach, .doneEv, .unused, .reset, .freeable, .closeFd s.gen]
+         let ran := match owner with | some id => toString id | none => "?"
+         fin w s!"ok ran={ran} probe=intact"
+       | "close", some k => fin (apply w k [.detach, .unused, .reset, .freeable, .closeFd (getSlot w k).gen]) "ok"
+       | "dispatch", _ =>
+         -- `dispatch k hup=full|detached`: the event carried a hang-up; appendHup detaches inside the dispatch, then either the
+         -- hang-up goroutine tears the connection down (handler set) or the operator waits for the user's Close
+         let k := toNat! id
+         let s := getSlot w k
+         let willRun := s.st == 1 && s.pending.isSome
+         let owner := (w.conns.find? (fun (_, sl, g) => sl == k && some g == s.cbGen)).map (·.1)
+         if !willRun then ({ w with fail := none }, s!"CONFORM-FAIL hang-up processed for slot {k} although the model skips the event") else
+         let acts := if sl == "hup=full" then [Act.doEv, .detach, .doneEv, .unused, .reset, .freeable, .closeFd s.gen] else [Act.doEv, .detach, .doneEv]
+         let w := apply w k acts
+         let ran := match owner with | some id => toString id | none => "?"
+         fin w s!"ok ran={ran}"
+       | _, _ => (w, "bad-op"))
+    else
     match kv sl "slot" with
     | none => (w, "bad-op")
     | some k =>
@@ -70,21 +96,11 @@ def step' (w : W) (line : String) : W × String :=
     fin w s!"ok ran={ran}"
   | ["endbatch"] =>
     fin { (w.slots.foldl (fun w (k, _) => apply w k [.endBatch]) w) with inBatch := false } "ok"
-  | ["close", _, sl] =>
-    match kv sl "slot" with
-    | none => (w, "bad-op")
-    | some k => fin (apply w k [.detach, .unused, .reset, .freeable, .closeFd (getSlot w k).gen]) "ok"
-  | ["dclose", _, sl] =>
-    -- the owner's Close() overlaps the dispatch: detach while the poller holds the token, `unused()` only after `done()`,
-    -- the descriptor closed last; the probe descriptor opened in between can therefore not have got the number
+  | ["close", _, sl, pre] =>
     match kv sl "slot" with
     | none => (w, "bad-op")
     | some k =>
-      let s := getSlot w k
-      let owner := (w.conns.find? (fun (_, sl, g) => sl == k && some g == s.cbGen)).map (·.1)
-      let w := apply w k [.doEv, .detach, .doneEv, .unused, .reset, .freeable, .closeFd s.gen]
-      let ran := match owner with | some id => toString id | none => "?"
-      fin w s!"ok ran={ran} probe=intact"
+      if pre == "pre=detached" then fin (apply w k [.unused, .reset, .freeable, .closeFd (getSlot w k).gen]) "ok" else (w, "bad-op")
   | ["stale", id, what, sl] =>
     match kv sl "slot", w.conns.find? (·.1 == toNat! id) with
     | some k, some (_, _, g) =>
